@@ -74,3 +74,62 @@ Definition xs_code (c : bytes * list (N * N * N * N) * N * bool * bool) : N :=
   (if pc =? 0 then 0 else 2 + 16 * pc) + (if strict_ok then 0 else 4) + (if decode_ok then 0 else 8).
 
 Definition strict_code (c : N * bool) : N := if snd c then 0 else 4.
+
+(** object-stream files (judged by the library's strict reader; the table is decoded by the
+    harness): expected pages, pages read, walk of every type-1/type-2 entry ok, number of
+    compressed members, and for every container named by a type-2 entry its own entry type
+    and whether the object at that offset is an /ObjStm *)
+Definition strict_code2 (c : N * N * bool * N * list (N * N * bool)) : N :=
+  let '(exp_pages, got_pages, ok, members, conts) := c in
+  (if ok then 0 else 4)
+  + (if (exp_pages =? got_pages)
+        && forallb (fun x => let '(_, ty, is_os) := x in (ty =? 1) && is_os) conts
+        && (members <=? N.of_nat (length conts) * 100)
+        && ((members =? 0) || negb (N.of_nat (length conts) =? 0))
+     then 0 else 2).
+
+(** user-chosen resource name through a validated entry point: rejected, or the written file
+    is valid, the strict reader opens it, and the page's /Resources /<category> dictionary has
+    the chosen name as a key *)
+Definition obj_at (b : bytes) (e : entry) : option obj :=
+  if e_used e then
+    match obj_header (drop (e_off e) b) (e_num e) (e_gen e) with
+    | Some r => match parse_obj (S (length r)) r with Some (o, _) => Some o | None => None end
+    | None => None
+    end
+  else None.
+
+Definition is_name (s : string) (o : option obj) : bool :=
+  match o with Some (OName n) => bytes_eqb n (S_ s) | _ => false end.
+
+Definition page_has_key (b : bytes) (cat name : bytes) : bool :=
+  match read_tail b with
+  | Some xoff =>
+    match read_xref (drop xoff b) with
+    | Some (t, _) =>
+        existsb (fun e =>
+          match obj_at b e with
+          | Some (ODict d) =>
+              is_name "Page" (dict_get (S_ "Type") d) &&
+              match dict_get (S_ "Resources") d with
+              | Some (ODict rd) =>
+                  match dict_get cat rd with
+                  | Some (ODict cd) => match dict_get name cd with Some _ => true | None => false end
+                  | _ => false
+                  end
+              | _ => false
+              end
+          | _ => false
+          end) t
+    | None => false
+    end
+  | None => false
+  end.
+
+Definition names_code (c : bytes * bytes * bytes * bool * bool) : N :=
+  let '(b, cat, name, accepted, strict_ok) := c in
+  if negb accepted then 0
+  else
+    let pc := pdf_code b in
+    (if pc =? 0 then (if page_has_key b cat name then 0 else 2 + 16 * 10) else 2 + 16 * pc)
+    + (if strict_ok then 0 else 4).
